@@ -1,6 +1,7 @@
 package bytes
 
 import (
+	"bytes"
 	stdbytes "bytes"
 	"fmt"
 	"io"
@@ -322,6 +323,39 @@ func harvest(k *kernel.K) []harvested {
 		}
 		keys = append(keys, key)
 	}
+	// the nodes of a state are the product of a history: some keys are deleted again (a branch that
+	// loses its value stays a branch while two keys remain below it), some values replaced
+	for i := k.Choose(5, "later-changes"); i > 0 && len(keys) > 1; i-- {
+		j := k.Choose(len(keys), "changed-key")
+		if k.Bool(1, 3, "overwrite") {
+			if err := t.Put(keys[j], valueOf(k, "val2")); err != nil {
+				panic(err)
+			}
+			continue
+		}
+		others := 0
+		for _, o := range keys {
+			if !bytes.Equal(o, keys[j]) {
+				others++
+			}
+		}
+		if others == 0 {
+			continue // keep at least one key: an empty trie has no node to harvest
+		}
+		if err := t.Delete(keys[j]); err != nil {
+			panic(err)
+		}
+		for x := len(keys) - 1; x >= 0; x-- { // the same key may have been put twice
+			if bytes.Equal(keys[x], keys[j]) && x != j {
+				keys = append(keys[:x], keys[x+1:]...)
+				if x < j {
+					j--
+				}
+			}
+		}
+		keys = append(keys[:j], keys[j+1:]...)
+		k.Probe("harvested-after-deletions")
+	}
 	var out []harvested
 	var rec func(n *node.Node, path string)
 	rec = func(n *node.Node, path string) {
@@ -343,6 +377,9 @@ func harvest(k *kernel.K) []harvested {
 	root := t.MustHash()
 	nproof := k.Range(1, 3, "proofkeys")
 	var pk [][]byte
+	if len(keys) == 0 { // everything was deleted again: nothing to prove
+		return out
+	}
 	for i := 0; i < nproof; i++ {
 		pk = append(pk, keys[k.Choose(len(keys), "proofkey")])
 	}
